@@ -18,7 +18,7 @@ import math
 
 from . import stubs, vloop, world
 
-ADV = [0.1, 1.0, 5.0, 30.0]
+ADV = [0.1, 1.0, 5.0, 30.0, 0.0004]
 
 
 class LbWorld(object):
@@ -37,7 +37,14 @@ class LbWorld(object):
     self.reg.ok_first = params.get('ok_first', 0)
     self.m_ema = None          # reference EMA of total outstanding: (value, time)
     Prov = stubs.make_provider_class()
-    self.ssp = Prov([stubs.make_server(i) for i in range(self.n)])
+    self.ssp = Prov([self.server(i) for i in range(self.n)])
+    if params.get('endpoint_name'):
+      # a provider that tells the balancer to use a *named* additional endpoint of each member (zk://...#name)
+      ename = params['endpoint_name']
+
+      class NamedProv(Prov):
+        endpoint_name = ename
+      self.ssp.__class__ = NamedProv
     if params.get('gate'):
       import gevent.event
       self.ssp.gate = gevent.event.Event()
@@ -72,6 +79,16 @@ class LbWorld(object):
     self._after_step('open', None)
 
   # ---- helpers ---------------------------------------------------------------------------------
+  def server(self, i):
+    """Member i as the server set reports it.  With 'endpoint_name' the member's service endpoint is a different address
+    (admin port on another host name) and the endpoint to balance over is the additional endpoint of that name."""
+    if not self.p.get('endpoint_name'):
+      return stubs.make_server(i)
+    from scales.loadbalancer.zookeeper import Endpoint
+    import collections
+    NS = collections.namedtuple('NamedServer', 'service_endpoint additional_endpoints')
+    return NS(Endpoint('admin%d' % i, 9000 + i), {self.p['endpoint_name']: stubs.make_endpoint(i), 'other': Endpoint('x%d' % i, 5000 + i)})
+
   def ep_idx(self, ep):
     return ep.port - 1000 if ep is not None else -1
 
@@ -235,12 +252,12 @@ class LbWorld(object):
     self.downed.discard(n.channel.serial)
 
   def _op_Join(self, e):
-    self.ssp.on_join(stubs.make_server(e))
+    self.ssp.on_join(self.server(e))
     if e not in self.members:
       self.members.append(e)
 
   def _op_Leave(self, e):
-    self.ssp.on_leave(stubs.make_server(e))
+    self.ssp.on_leave(self.server(e))
     if e in self.members:
       self.members.remove(e)
 
@@ -253,7 +270,7 @@ class LbWorld(object):
       def worker():
         while True:
           kind, e = self.notifier_q.get()
-          (self.ssp.on_join if kind == 'J' else self.ssp.on_leave)(stubs.make_server(e))
+          (self.ssp.on_join if kind == 'J' else self.ssp.on_leave)(self.server(e))
           self.queued.pop(0)
           if kind == 'J':
             if e not in self.members:
@@ -416,6 +433,14 @@ class LbWorld(object):
         if out == 0 and ch.close_calls == 0:
           self.v('C04.close-at-drain', 'after %r: removed ep%d (channel #%d) drained but was never closed'
                  % (op, self.ep_idx(n.endpoint), s), kind=self.kind)
+    # a member that left the server set and has nothing outstanding must have been closed, whatever the balancer's own
+    # bookkeeping says about it (it may wrongly still list the member)
+    if not self.loading and not self.queued:
+      for s, n in in_heap.items():
+        e = self.ep_idx(n.endpoint)
+        if e not in self.members and self.outstanding(s) == 0 and self.chan(s).close_calls == 0 and s not in self.downed:
+          self.v('C04.close-now', 'after %r: ep%d (channel #%d) left the server set with nothing outstanding but its channel was not closed '
+                 '(the balancer still lists it as a member)' % (op, e, s), kind=self.kind)
     # requests may only go to channels that are in use
     for (ev, s, rid) in self.reg.request_log[getattr(self, '_reqlog_seen', 0):]:
       if s in self.removed and self.removed[s]['by_leave']:
